@@ -7,8 +7,9 @@ VERIF = os.path.dirname(os.path.dirname(os.path.abspath(__file__)))
 REPO = '/repo'
 SPEC = os.path.join(VERIF, 'spec')
 HARNESS = os.path.join(VERIF, 'harness')
-WORK = os.path.join(VERIF, 'work')
-EVID = os.path.join(VERIF, 'evidence')
+# development only (coverage measurement of the harness, tools/coverage.sh): alternative scratch / evidence directory and binary
+WORK = os.environ.get('VERIF_DEV_WORK') or os.path.join(VERIF, 'work')
+EVID = os.environ.get('VERIF_DEV_EVID') or os.path.join(VERIF, 'evidence')
 JAVA_OPTS = '-Xss64m'
 
 
@@ -30,6 +31,8 @@ def workdir(pid):
 # harness build (always against /repo's current working tree; cargo decides what is stale)
 def build_harness(release=False):
     os.makedirs(WORK, exist_ok=True)
+    if os.environ.get('VERIF_DEV_BIN'):
+        return os.environ['VERIF_DEV_BIN']
     lock = open(os.path.join(WORK, '.build.lock'), 'w')
     fcntl.flock(lock, fcntl.LOCK_EX)
     try:
